@@ -43,7 +43,10 @@ fn run_cross(c: &CrossCase, st: &mut Stats) -> CaseResult {
 	}
 	let mut touch = false;
 	let mut fired = 0;
-	for (t, &(v, b)) in p.iter().enumerate() {
+	// with new(first pair): in half of the cases that pair is "the previous step" only and is not fed again
+	// (fed again first, its difference compares with itself and the constructor's state stays invisible)
+	let skip = (!c.default_ctor && p.len() % 2 == 1 && p.len() > 2) as usize;
+	for (t, &(v, b)) in p.iter().enumerate().skip(skip) {
 		let d = v - b;
 		let exp_above = prev < 0.0 && d >= 0.0;
 		let exp_under = prev > 0.0 && d <= 0.0;
